@@ -65,8 +65,9 @@ T = {
         "contract-based deductive verification (slices of Context.evaluate / evaluate_action, exact State.get); failing-step enumeration as "
         "labelled bounded stand-in",
         "Proved: a failed prefix short-circuits (no action runs, the result is an error state); every failure inside evaluate_action - unknown "
-        "command, argument error, exception of the command - is flagged (is_error, status error) and the command runs at most once; State.get "
-        "never hands out the data of an error state. Which message / position / query text the error record carries is explored only (failing "
+        "command, argument error, exception of the command - is flagged (is_error, status error) and the command runs at most once; a failing "
+        "link argument (evaluate_parameter) is logged and surfaces as an EvaluationException that names the query being evaluated and the "
+        "position of the failing argument, and a link that failed never yields a value; State.get never hands out the data of an error state. Which message / position / query text the error record carries is explored only (failing "
         "action at every position and in every way); four deviations there are recorded findings.",
         "KNOWN-FINDING lines name four genuine, unrepaired deviations in the error record (not in the containment itself). " + BOUNDED),
 "C07": ("proof",
@@ -135,8 +136,10 @@ T = {
         "view (own VC generator, z3/cvc5); bounded reference-model comparison of every back-end as labelled stand-in",
         "Proved: MemoryCache (get / contains / store / store_metadata / remove / clean), CacheCombine (get / contains / remove / store), NoCache, "
         "CacheProxy against the Cache interface with the view (cmeta, cdata): a stored value is served, ready, under its query; a refused value "
-        "leaves nothing stale; remove removes from both levels; StoreCache.to_path (nested layout) is injective (lemma). File, SQL, "
-        "obfuscating / encrypting and store-backed caches and the conditional wrappers are explored against the reference map.",
+        "leaves nothing stale; remove removes from both levels; the conditional wrappers (if_attribute_equal / if_contains / if_not_contains: "
+        "get, remove, store) read the wrapped cache and either store into it unchanged or refuse and leave nothing stale, for every outcome of the "
+        "attribute test; StoreCache.to_path (nested layout) is injective (lemma). File, SQL, obfuscating / encrypting and store-backed caches "
+        "are explored against the reference map.",
         "Interface clause `a cached state carries the standard metadata keys` is assumed of every cache, not proved on the implementations. "
         + BOUNDED),
 "C14": ("proof",
